@@ -472,7 +472,7 @@ func cutFrames(rng *rand.Rand, data []byte, maxFrame int) []wsFrame {
 	return fs
 }
 
-const wsWait = 8 * time.Second
+const wsWait = 20 * time.Second
 
 // runWS plays the phases over the websocket listener; frames[i] are the frames of phase i.
 func runWS(e *brokerEnv, phases []wsPhase, frames [][]wsFrame, expectClose bool) (reply []byte, binaryOnly, closed, complete bool, pkts []string, note string) {
@@ -534,6 +534,21 @@ func runWS(e *brokerEnv, phases []wsPhase, frames [][]wsFrame, expectClose bool)
 	mu.Lock()
 	defer mu.Unlock()
 	return reply, binaryOnly, closed, complete, e.hook.take(local), ""
+}
+
+// waitForgotten blocks until the broker no longer knows client id cid (clean sessions are deleted by
+// the connection's teardown), so that the next connection with that id is not a takeover.
+func waitForgotten(e *brokerEnv, cid string) {
+	if cid == "" {
+		return
+	}
+	deadline := time.Now().Add(30 * time.Second)
+	for time.Now().Before(deadline) {
+		if _, ok := e.srv.Clients.Get(cid); !ok {
+			return
+		}
+		time.Sleep(time.Millisecond)
+	}
 }
 
 func waitFor(mu *sync.Mutex, reply *[]byte, t byte, n int, gone chan struct{}) bool {
@@ -674,6 +689,7 @@ func wsBrokerMain(a []string) {
 		frames [][]wsFrame
 		tcp    []wsPhase // what the TCP reference sends (the binary prefix)
 		close  bool
+		cid    string // client id used by both runs ("" = assigned by the broker)
 	}
 	var jobs []job
 	envs := map[int]*brokerEnv{}
@@ -687,7 +703,7 @@ func wsBrokerMain(a []string) {
 				fs = append(fs, wsFrame{Data: toBytes(f)})
 			}
 			ph := []wsPhase{{toBytes(r.Stream), refcodec.Pingresp, 1}}
-			jobs = append(jobs, job{envs[n], fmt.Sprintf("seg%d/buf%d", ri, n), "seg", ph, [][]wsFrame{fs}, ph, false})
+			jobs = append(jobs, job{envs[n], fmt.Sprintf("seg%d/buf%d", ri, n), "seg", ph, [][]wsFrame{fs}, ph, false, ""})
 		}
 	}
 	rng := hx.Rand(3939)
@@ -699,7 +715,7 @@ func wsBrokerMain(a []string) {
 		for _, p := range ph {
 			fr = append(fr, cutFrames(rng, p.data, mf))
 		}
-		jobs = append(jobs, job{envs[n], fmt.Sprintf("sess%d/buf%d/maxframe%d", i, n, mf), "session", ph, fr, ph, false})
+		jobs = append(jobs, job{envs[n], fmt.Sprintf("sess%d/buf%d/maxframe%d", i, n, mf), "session", ph, fr, ph, false, fmt.Sprintf("sess%d", i)})
 	}
 	// a text frame must end the connection: CONNECT (binary), then the PINGREQ in a TEXT frame, at
 	// different places of the sequence
@@ -715,7 +731,7 @@ func wsBrokerMain(a []string) {
 		pre := []wsPhase{{con, refcodec.Connack, 1}, {con, refcodec.Connack, 1}, {data: []byte{}}}
 		for j, f := range fs {
 			jobs = append(jobs, job{envs[n], fmt.Sprintf("text%d/buf%d", i*3+j, n), "text",
-				[]wsPhase{{data: nil}}, [][]wsFrame{f}, []wsPhase{pre[j]}, true})
+				[]wsPhase{{data: nil}}, [][]wsFrame{f}, []wsPhase{pre[j]}, true, ""})
 		}
 	}
 	outs := make([]wsBrokerOut, len(jobs))
@@ -725,8 +741,25 @@ func wsBrokerMain(a []string) {
 		for _, fs := range j.frames {
 			o.Frames = append(o.Frames, frameList(fs, false)...)
 		}
-		wr, bin, closed, comp1, wp, note1 := runWS(j.e, j.phases, j.frames, j.close)
-		tr, comp2, tp, sent, note2 := runTCP(j.e, j.tcp)
+		// Both runs use the same client id (the packets must be identical). The second run must not
+		// start while the broker is still tearing down the first connection: a CONNECT racing with the
+		// teardown of a connection of the same id is a different scenario (session takeover) and not
+		// what byte transparency is about. So wait until the broker has forgotten the id, and run a
+		// case again (at most 3 times) if one of the two runs did not get through its script in time.
+		var wr, tr []byte
+		var bin, closed, comp1, comp2 bool
+		var wp, tp []string
+		var note1, note2 string
+		var sent int
+		for attempt := 0; attempt < 3; attempt++ {
+			waitForgotten(j.e, j.cid)
+			wr, bin, closed, comp1, wp, note1 = runWS(j.e, j.phases, j.frames, j.close)
+			waitForgotten(j.e, j.cid)
+			tr, comp2, tp, sent, note2 = runTCP(j.e, j.tcp)
+			if comp1 && comp2 {
+				break
+			}
+		}
 		o.WsReply, o.TcReply, o.WsPackets, o.TcPackets = digestStream(wr), digestStream(tr), wp, tp
 		o.WsBinary, o.WsClosed, o.Complete, o.TCPBytes, o.Note = bin, closed, comp1 && comp2, sent, note1+note2
 		outs[i] = o
